@@ -225,12 +225,20 @@ def _out_root():
 
 
 def _reproduces(prop, path):
-    try:
-        p = subprocess.run([os.path.join(env.HOME, 'check'), prop, '--replay', path], capture_output=True, text=True,
-                           timeout=900, env={**os.environ, 'VERIF_WORKERS': '1'})
-        return p.returncode == 1 and 'VIOLATION' in p.stdout
-    except Exception:
-        return False
+    """Re-run one replay file in a fresh process. The driver has already rebuilt stale extensions, so the replay skips the
+    build step; a subprocess that ends with anything but the two verdict statuses (0 = not reproduced, 1 = reproduced) is an
+    infrastructure hiccup and is retried once."""
+    for attempt in range(2):
+        try:
+            p = subprocess.run([os.path.join(env.HOME, 'check'), prop, '--replay', path, '--no-build'], capture_output=True,
+                               text=True, timeout=1800, env={**os.environ, 'VERIF_WORKERS': '1'})
+        except Exception:
+            continue
+        if p.returncode == 1 and 'VIOLATION' in p.stdout:
+            return True
+        if p.returncode == 0:
+            return False
+    return False
 
 
 def _call(arg):
